@@ -123,7 +123,7 @@ def expected_domain(c, io):
 
 def same(a, b):
     a, b = np.asarray(a, dtype=float), np.asarray(b, dtype=float)
-    return a.shape == b.shape and (a.size == 0 or np.allclose(a, b, rtol=1e-9, atol=1e-9 * max(1.0, float(np.max(np.abs(b))) if b.size else 1.0)))
+    return a.shape == b.shape and (a.size == 0 or np.allclose(a, b, rtol=0, atol=1e-9 * (float(np.max(np.abs(b))) or 1e-300)))
 
 
 def oracle(c, io):
@@ -182,7 +182,8 @@ def oracle(c, io):
                     else:
                         got = sum(seg_y[j] * (seg_x[j + 1] - seg_x[j]) for j in range(n))
                     want = (ry[q] if refrule == "rectangle" else (ry[q] + ry[q + 1]) / 2) * (rx[q + 1] - rx[q])
-                    if abs(got - want) > 1e-7 * max(1.0, abs(want)):
+                    sc = sum(max(abs(seg_y[j]), abs(seg_y[j + 1])) * (seg_x[j + 1] - seg_x[j]) for j in range(n)) + abs(want) or 1e-300
+                    if abs(got - want) > 1e-7 * sc:
                         return (f"after the history, recreate + match does not reproduce the transformed average of "
                                 f"interval {q}: integral {got!r} vs {want!r}")
     return None
